@@ -71,6 +71,8 @@ fn main() {
         "C11" => vlib::c11::run(&mut ctx),
         "C12" => vlib::c12::run(&mut ctx),
         "C14" => vlib::c14::run(&mut ctx),
+        "C15" => vlib::c15::run(&mut ctx),
+        "C20" => vlib::c20::run(&mut ctx),
         "C13" => vlib::c13::run(&mut ctx),
         _ => {
             eprintln!("unknown property {}", id);
